@@ -491,8 +491,21 @@ pub fn check(paths: &Paths, tier: &str) -> i32 {
                 let job = Job { entry: ei, sibling: None, backend: b, extra_excl: vec![], text_override: None, extra_args: vec![] };
                 let mut st = RunStats::default();
                 if let Some(g) = tierp::decl_graph(&ctx, &wd, &job, &e.text, &mut st) {
-                    for leaf in g.leaves() {
-                        todo.push(Job { extra_excl: vec![leaf], ..job.clone() });
+                    let leaves = g.leaves();
+                    for leaf in &leaves {
+                        todo.push(Job { extra_excl: vec![leaf.clone()], ..job.clone() });
+                    }
+                    // and, for every parent all of whose children are leaves, all its children at once
+                    // (what changes for others when a declaration stops having children)
+                    let mut by_parent: BTreeMap<String, Vec<String>> = BTreeMap::new();
+                    for (child, parent) in &g.parent {
+                        by_parent.entry(parent.clone()).or_default().push(child.clone());
+                    }
+                    for (_, mut kids) in by_parent {
+                        if kids.len() >= 2 && kids.iter().all(|k| leaves.contains(k)) {
+                            kids.sort();
+                            todo.push(Job { extra_excl: kids, ..job.clone() });
+                        }
                     }
                 }
             }
